@@ -139,3 +139,26 @@ Definition leaf_alphas32 (rs : list Z) : list Z :=
   map (fun r => bits_of_b32 (leaf_alpha (b32_of_bits 1065353216) (b32_of_bits r))) rs.
 Definition leaf_alphas64 (rs : list Z) : list Z :=
   map (fun r => bits_of_b64 (leaf_alpha (b64_of_bits 4607182418800017408) (b64_of_bits r))) rs.
+
+(* ---- the H_bar update of NUTSChain::step, bit-exact (only IEEE basic operations are involved):
+     eta   = 1 / ((m + t0) as T)                       (m already incremented, t0 = 10)
+     h_bar = (1 - eta) * h_bar + eta * (delta - alpha / (n_alpha as T))
+   generic in the format; `one` is 1.0 ---- *)
+Section HbarStep.
+  Variables prec emax : Z.
+  Context (Hprec : FLX.Prec_gt_0 prec) (Hmax : BinarySingleNaN.Prec_lt_emax prec emax).
+  Notation fl := (binary_float prec emax).
+  Variable nanf : fl -> fl -> { x : fl | Binary.is_nan prec emax x = true }.
+  Definition count_fl (n : nat) : fl :=
+    Binary.binary_normalize prec emax Hprec Hmax mode_NE (Z.of_nat n) 0 false.
+  Definition hbar_step (one delta h alpha : fl) (m n_alpha : nat) : fl :=
+    let eta := fdiv nanf one (count_fl (m + 10)) in
+    fplus nanf (fmult nanf (fminus nanf one eta) h)
+               (fmult nanf eta (fminus nanf delta (fdiv nanf alpha (count_fl n_alpha)))).
+End HbarStep.
+Arguments hbar_step {prec emax Hprec Hmax}.
+(* inputs: delta, previous h_bar, alpha (bit patterns), the new counter m, n_alpha *)
+Definition hbar_step32 (delta h alpha : Z) (m n_alpha : nat) : list Z :=
+  [bits_of_b32 (hbar_step binop_nan_pl32 (b32_of_bits 1065353216) (b32_of_bits delta) (b32_of_bits h) (b32_of_bits alpha) m n_alpha)].
+Definition hbar_step64 (delta h alpha : Z) (m n_alpha : nat) : list Z :=
+  [bits_of_b64 (hbar_step binop_nan_pl64 (b64_of_bits 4607182418800017408) (b64_of_bits delta) (b64_of_bits h) (b64_of_bits alpha) m n_alpha)].
